@@ -67,6 +67,9 @@ pub struct Case {
     pub proto_seeded: bool,
     pub steps: usize,
     pub start: [R; 2],
+    /// HMC only: 0 = the 2-d target, otherwise the dimension of a wide target (large batches)
+    #[serde(default)]
+    pub wide: usize,
 }
 
 fn strategy() -> BoxedStrategy<Case> {
@@ -78,10 +81,11 @@ fn strategy() -> BoxedStrategy<Case> {
         any::<u64>(),
         any::<bool>(),
         1usize..6,
-        (-2.0f64..2.0, -2.0f64..2.0, prop_oneof![2 => Just(0usize), 1 => 1usize..5]),
+        (-2.0f64..2.0, -2.0f64..2.0, prop_oneof![2 => Just(0usize), 1 => 1usize..5], prop_oneof![12 => Just(0usize), 1 => 3usize..300, 1 => Just(64usize), 1 => Just(1024usize)]),
     )
-        .prop_map(|(kind, chains, seeded, seed, proto_seed, proto_seeded, steps, (s0, s1, proto_used))| (kind, chains, seeded, seed, proto_seed, proto_seeded, steps, (s0, s1), proto_used))
-        .prop_map(|(kind, chains, seeded, seed, proto_seed, proto_seeded, steps, start, proto_used)| Case {
+        .prop_map(|(kind, chains, seeded, seed, proto_seed, proto_seeded, steps, (s0, s1, proto_used, wide))| (kind, chains, seeded, seed, proto_seed, proto_seeded, steps, (s0, s1), proto_used, wide))
+        .prop_map(|(kind, chains, seeded, seed, proto_seed, proto_seeded, steps, start, proto_used, wide)| Case {
+            wide,
             proto_used,
             kind,
             chains,
@@ -105,6 +109,24 @@ fn pairwise_distinct<T: PartialEq + std::fmt::Debug>(v: &[T], sig: &str, what: &
             if v[i] == v[j] {
                 return Err(Fail::new(sig, format!("{what}: chains {i} and {j} of {} coincide: {:?}", v.len(), v[i])));
             }
+        }
+    }
+    Ok(())
+}
+
+/// No generator may be another one advanced by up to `len` outputs: streams that are offsets
+/// into one sequence hand the same random numbers to two chains in any run longer than the lag.
+fn no_stream_overlap(gens: &[SmallRng], len: u32, sig: &str, what: &str) -> CheckResult {
+    let starts: std::collections::HashMap<(u64, u64), usize> = gens.iter().enumerate().map(|(j, g)| (peek(g), j)).map(|(g, j)| ((g[0], g[1]), j)).collect();
+    for (i, g) in gens.iter().enumerate().take(4) {
+        let mut r = g.clone();
+        let mut prev = r.next_u64();
+        for step in 1..len {
+            let cur = r.next_u64();
+            if let Some(j) = starts.get(&(prev, cur)) {
+                ensure!(*j == i, sig, "{what}: the generator of chain {i} reaches the start state of chain {j}'s generator after {step} outputs: the chains consume the same random numbers");
+            }
+            prev = cur;
         }
     }
     Ok(())
@@ -168,6 +190,7 @@ fn check(c: &Case, cov: &mut Cov) -> CheckResult {
             // acceptance generators
             let acc: Vec<[u64; 2]> = s.chains.iter().map(|ch| peek(&ch.rng)).collect();
             pairwise_distinct(&acc, &format!("mh-acceptance-stream-shared {tag}"), "acceptance generator")?;
+            no_stream_overlap(&s.chains.iter().map(|ch| ch.rng.clone()).collect::<Vec<_>>(), 1 << 11, &format!("mh-acceptance-stream-overlap {tag}"), "acceptance generators")?;
             // (iv) within a chain: the proposal generator is not in the state of the acceptance generator
             for (i, ch) in s.chains.iter().enumerate() {
                 let normal = Normal::new(0.0f64, 1.0).unwrap();
@@ -213,6 +236,8 @@ fn check(c: &Case, cov: &mut Cov) -> CheckResult {
             pairwise_distinct(&states, &format!("mh-proposal-noise-shared {tag}"), "state of the user proposal's generator")?;
             let acc: Vec<[u64; 2]> = s.chains.iter().map(|ch| peek(&ch.rng)).collect();
             pairwise_distinct(&acc, &format!("mh-acceptance-stream-shared {tag}"), "acceptance generator")?;
+            no_stream_overlap(&s.chains.iter().map(|ch| ch.rng.clone()).collect::<Vec<_>>(), 1 << 11, &format!("mh-acceptance-stream-overlap {tag}"), "acceptance generators")?;
+            no_stream_overlap(&s.chains.iter().map(|ch| ch.proposal.rng.clone()).collect::<Vec<_>>(), 1 << 11, &format!("mh-proposal-stream-overlap {tag}"), "user proposal generators")?;
             // seeds the library handed out: pairwise different, and never the acceptance seed
             let last_seeds: Vec<Option<u64>> = s.chains.iter().map(|ch| ch.proposal.seeds_received.last().copied()).collect();
             for i in 0..n {
@@ -238,11 +263,19 @@ fn check(c: &Case, cov: &mut Cov) -> CheckResult {
             }
         }
         2 => {
-            let spec = Spec::Gauss {
-                dim: 2,
-                mean: vec![R(0.0), R(0.0)],
-                prec: vec![R(1.0), R(0.3), R(0.3), R(2.0)],
+            // a 2-d correlated Gaussian, or (large batches) a wide product target
+            let dim = if c.wide == 0 { 2 } else { c.wide };
+            let spec = if c.wide == 0 {
+                Spec::Gauss {
+                    dim: 2,
+                    mean: vec![R(0.0), R(0.0)],
+                    prec: vec![R(1.0), R(0.3), R(0.3), R(2.0)],
+                }
+            } else {
+                cov.class(if n * dim >= 4096 { "hmc-batch>=4096-entries" } else { "hmc-wide" });
+                Spec::StudentT { dim, nu: R(5.0), scale: R(1.0) }
             };
+            let x0: Vec<f64> = (0..dim).map(|i| x0[i % 2]).collect();
             let mut s = HMC::<f64, B64, HTarget>::new(HTarget::new(spec), vec![x0.clone(); n], 0.3, 3);
             if c.seeded {
                 s = no_panic(|| s.set_seed(c.seed)).map_err(|m| Fail::new("construction-panic", format!("HMC::set_seed panicked: {m}")))?;
@@ -257,21 +290,23 @@ fn check(c: &Case, cov: &mut Cov) -> CheckResult {
             let total = all.len();
             all.sort();
             all.dedup();
-            ensure!(all.len() == total, &format!("hmc-momentum-reused-across-steps {tag}"), "momentum entries repeat across two consecutive HMC steps ({} distinct of {total})", all.len());
+            // (a single coincidence among > 50000 variates is not evidence of reuse)
+            ensure!(total - all.len() <= total / 50_000, &format!("hmc-momentum-reused-across-steps {tag}"), "momentum entries repeat across two consecutive HMC steps ({} distinct of {total})", all.len());
             let mut us2: Vec<u64> = tr.iter().flat_map(|r| r.uniforms.iter().map(|v| v.to_bits())).collect();
             let ut = us2.len();
             us2.sort();
             us2.dedup();
             ensure!(us2.len() == ut, &format!("hmc-uniform-shared {tag}"), "acceptance uniforms repeat across two consecutive HMC steps");
             let rec = &tr[0];
-            let mom: Vec<Vec<u64>> = (0..n).map(|r| rec.momenta[r * 2..r * 2 + 2].iter().map(|v| v.to_bits()).collect()).collect();
+            let mom: Vec<Vec<u64>> = (0..n).map(|r| rec.momenta[r * dim..(r + 1) * dim].iter().map(|v| v.to_bits()).collect()).collect();
             pairwise_distinct(&mom, &format!("hmc-momentum-shared {tag}"), "momentum row")?;
             let us: Vec<u64> = rec.uniforms.iter().map(|v| v.to_bits()).collect();
             pairwise_distinct(&us, &format!("hmc-uniform-shared {tag}"), "acceptance uniform")?;
             // momenta and uniforms are not copies of one another's source values
             let pos = to_vec(&s.positions);
-            let rows: Vec<Vec<u64>> = (0..n).map(|r| pos[r * 2..r * 2 + 2].iter().map(|v| v.to_bits()).collect()).collect();
-            let movedrows: Vec<&Vec<u64>> = rows.iter().filter(|r| **r != vec![x0[0].to_bits(), x0[1].to_bits()]).collect();
+            let rows: Vec<Vec<u64>> = (0..n).map(|r| pos[r * dim..(r + 1) * dim].iter().map(|v| v.to_bits()).collect()).collect();
+            let x0bits: Vec<u64> = x0.iter().map(|v| v.to_bits()).collect();
+            let movedrows: Vec<&Vec<u64>> = rows.iter().filter(|r| **r != x0bits).collect();
             pairwise_distinct(&movedrows, &format!("hmc-rows-identical {tag}"), "row after one transition from the common start")?;
         }
         _ => {
